@@ -15,7 +15,9 @@ EXPLANATION = (
     "rejects any record after a TSIG and TSIG/SIG/OPT outside the additional section; (P2) in Catalog::update a TSIG context "
     "returned by the handler leads to response.set_signature(signer.sign(encoded response)) or a SERVFAIL, never an unsigned "
     "success; TSigResponseContext::sign MACs request MAC + response + TSIG variables for the Signed kind and leaves BadSig/BadKey "
-    "unsigned.")
+    "unsigned; (Q1) the MAC input of TSIG::emit_tsig_for_mac is the RFC 8945 4.3.3 field sequence; (client side) DnsMultiplexer delivers "
+    "a response unverified only when the request's STORED verifier is None, verifies with the stored (chained) verifier in place and "
+    "never moves it out or overwrites it while the request is active, and stores the verifier Message::finalize returned.")
 NOT_DECIDED = "HMAC itself; that one flipped bit changes tbv (follows only for octets shown to be inputs); the order in which a multi-message reply arrives (the client verifies whatever arrives, in arrival order, with the stored chained verifier - G4)."
 ASSUMPTIONS = ["FULL feature configuration (sqlite + dnssec-ring)", "Range<u64>::contains semantics"]
 
